@@ -899,6 +899,15 @@ func streamCont(o *Out, r *rand.Rand, n int, thorough bool) {
 		{"t = make([][]int64, 1)\nt[0] = [1, 2, 3]\nfunc k() { t[0] = [7, 8, 9]; return 2 }\nt[0][:k()]", "[]int64[int64:1 int64:2]"},
 		{"ms = [{\"a\": 1}]\nold = ms[0]\nfunc k() { ms[0] = {\"a\": 2, \"b\": 3}; return \"a\" }\ndelete(ms[0], k())\n[len(old), len(ms[0])]", "[]iface[int64:0 int64:2]"},
 		{"m = {\"a\": 1}\nold = m\nfunc k() { m = {\"a\": 2, \"b\": 3}; return \"a\" }\ndelete(m, k())\n[len(old), len(m)]", "[]iface[int64:0 int64:2]"},
+		// a range of a slice is no assignment target - or, were it one, a statement that fails leaves every element as it was and
+		// an overlapping source is copied as Go's copy does
+		{"a = make([]int64, 3)\na[0] = 1\na[1] = 2\na[2] = 3\ntry {\na[0:3] = [7, 8, \"x\"]\n} catch e {\n}\na", "[]int64[int64:1 int64:2 int64:3]"},
+		{"a = make([]int64, 3)\na[0] = 1\na[1] = 2\na[2] = 3\ntry {\na[1:3] = [7, [8]]\n} catch e {\n}\na", "[]int64[int64:1 int64:2 int64:3]"},
+		{"b = [1, 2, 3]\nr = \"ok\"\ntry {\nb[1:3] = b[0:2]\nif b != [1, 1, 2] {\nr = \"not what copy gives\"\n}\n} catch e {\nif b != [1, 2, 3] {\nr = \"changed by a failed statement\"\n}\n}\nr", "string:" + hexOf("ok")},
+		// the two-value read of a missing key binds what the plain read gives (nil) and false - whatever the map's element type
+		{"m = make(map[string]int64)\nv, ok = m[\"nokey\"]\n[v, ok, m[\"nokey\"]]", "[]iface[nil bool:false nil]"},
+		{"m = make(map[string]string)\nm[\"a\"] = \"x\"\nv, ok = m[\"b\"]\nw, ok2 = m[\"a\"]\n[v, ok, w, ok2]", "[]iface[nil bool:false string:" + hexOf("x") + " bool:true]"},
+		{"m = map[string][]int64{}\nv, ok = m[\"k\"]\nv", "nil"},
 		// the value of an assignment expression is the value assigned, whatever kind of place it was stored in
 		{"v = 1\nx = (v += 1)\nx", "int64:2"},
 		{"r = [1]\nx = (r[0] += 1)\nx", "int64:2"},
